@@ -49,9 +49,14 @@ def run_jobs(target, jobs, nproc=16, timeout=300, env=None, on_result=None):
                 with open(inpath, 'w') as f:
                     json.dump(job, f)
                 errf = open(errpath, 'wb')
+                jenv = cenv
+                if isinstance(job, dict) and job.get('_env'):
+                    # per-job environment (e.g. PYTHONHASHSEED: the iteration order of sets of scraped links is part of the
+                    # behaviour being observed)
+                    jenv = dict(cenv, **{k: str(v) for k, v in job['_env'].items()})
                 proc = subprocess.Popen(
                     [PY, '-m', 'harness.par', target, inpath, outpath],
-                    cwd=VERIF, env=cenv, stdout=errf, stderr=subprocess.STDOUT,
+                    cwd=VERIF, env=jenv, stdout=errf, stderr=subprocess.STDOUT,
                     stdin=subprocess.DEVNULL, start_new_session=True)
                 errf.close()
                 running.append((idx, proc, inpath, outpath, errpath, time.time()))
